@@ -146,10 +146,10 @@ def check(run):
     rng = random.Random(run.seed + 3)
     if run.tier == 'quick':
         designs = vdesigns.library_designs(widths=(1, 2, 3), rng=rng, frac=0.35)
-        ncomp = 150
+        ncomp, npair = 150, 300
     else:
         designs = vdesigns.library_designs(widths=(1, 2, 3, 4), rng=rng, frac=1.0)
-        ncomp = 3000
+        ncomp, npair = 3000, 2000
     judge(run, gather(run, designs), 'lib')
     comps = []
     with quiet():
@@ -159,6 +159,9 @@ def check(run):
             except Exception as e:
                 run.cov['composite_build_failed'] = run.cov.get('composite_build_failed', 0) + 1
     judge(run, gather(run, comps, again=3), 'comp')
+    with quiet():
+        pairs = vdesigns.pair_designs(rng, npair)
+    judge(run, gather(run, pairs), 'pair')
     run.assumptions += ['front end implements the Verilog-2001 subset the emitters are allowed to produce; constructs it does not '
                         'implement are counted as unsupported, not judged',
                         'external IP wrappers (black boxes) are outside the catalogue']
